@@ -347,6 +347,11 @@ pub struct FragCfg {
     /// (width,height,profile,bit_depth,color_space,transfer,matrix,level,full_range)
     pub vp9: Option<[u32; 9]>,
     pub lang: Option<String>,
+    /// builder path variant bits (via_builder only): 1 = set_video_track instead of video,
+    /// 2 = parameter sets / headers given BEFORE the track call, 4 = a decoy track call with
+    /// another codec first (the last track call wins, supplied parameters are kept)
+    #[serde(default)]
+    pub path: u8,
 }
 
 #[derive(Serialize, Deserialize, Clone, Debug, PartialEq)]
